@@ -167,6 +167,13 @@ func recC07(c *ctx) {
 		x(r.Bytes(l), x25519.Basepoint)
 		x(r.Bytes(l), append([]byte(nil), x25519.Basepoint...))
 	}
+	// wrong-length points that ALIAS the exported Basepoint slice (prefixes, suffixes, an over-long reslice is impossible: cap = 32):
+	// the identity of the first byte must not replace the length check
+	for _, k := range []int{0, 1, 16, 31} {
+		x(scal(), x25519.Basepoint[:k])
+		x(scal(), x25519.Basepoint[32-k:])
+	}
+	x(scal(), x25519.Basepoint[:32:32])
 	// length errors
 	for _, ls := range [][2]int{{0, 32}, {31, 32}, {33, 32}, {32, 0}, {32, 31}, {32, 33}, {64, 64}} {
 		x(r.Bytes(ls[0]), r.Bytes(ls[1]))
